@@ -507,7 +507,7 @@ func genOpts(cfg vmx.Cfg, noAlias bool) gen.Opts {
 	o.MaxDepth = 3
 	o.Dice = true
 	o.CoC, o.WoD, o.Fate, o.DC = cfg.CoC, cfg.WoD, cfg.Fate, cfg.DC
-	o.SingleKeyDicts = true
+	o.SingleKeyDicts = false // since fix 6269628 a dict prints and lists its entries in key order
 	o.NoAlias = noAlias
 	return o
 }
